@@ -178,7 +178,8 @@ def roland_expected(s: GR.Sample) -> dict:
     re_ = len(s.words) - 1 if s.rel_end is None else s.rel_end
     exp = {"sample_mode": "Mono", "sampling_frequency": str(GR.FREQ[s.freq]), "sustain_loop_enable": "1", "sustain_loop_tune": "2", "release_loop_tune": "3",
            "original_key": note_from_a0(s.key - 21), "loop_mode": ROLAND_MODES[s.mode]}
-    for k, (addr, fine) in {"start_sample": (s.start, s.fine), "sustain_loop_start": (s.sus_start, 1), "sustain_loop_end": (se, 2), "release_loop_start": (s.rel_start, 3), "release_loop_end": (re_, 4)}.items():
+    fn = s.fines if s.fines is not None else [s.fine, 1, 2, 3, 4]
+    for k, (addr, fine) in {"start_sample": (s.start, fn[0]), "sustain_loop_start": (s.sus_start, fn[1]), "sustain_loop_end": (se, fn[2]), "release_loop_start": (s.rel_start, fn[3]), "release_loop_end": (re_, fn[4])}.items():
         exp[f"{k}/fine"] = str(fine)
         exp[f"{k}/address"] = str(addr & 0xFFFFFF)
     return exp
@@ -191,6 +192,7 @@ def roland_round(rep: Report, ctx, rng, cases, tag):
     for s in disc.samples.values():
         # ls does not read audio: give every loop point its own value, independent of the data length
         s.start, s.sus_start, s.sus_end, s.rel_start, s.rel_end = (rng.randrange(1 << 24) for _ in range(5))
+        s.fines = [rng.choice([0, 127, 128, 255, rng.randrange(256)]) for _ in range(5)]
     img, info = GR.serialize(disc, rng)
     exp_paths = sorted(GR.expected_export(disc))
     with E.Scratch() as s:
